@@ -166,6 +166,11 @@ def prove(prop, ctx):
                 os.makedirs(WORK, exist_ok=True)
                 open(dst, "w").write(open(p).read())
     vo = os.path.join(COQ, "Properties_%s.vo" % prop)
+    # a failed translation leaves the previous LeafGen.v in place: only the properties whose theorems (transitively) use the
+    # generated definitions are no longer tied to the current source
+    if not gen_ok and not coq_depends(prop, "LeafGen"):
+        res["gen_note"] = "translator failed (%s); Properties_%s.v does not depend on the generated file" % (gen_msg, prop)
+        gen_ok = True
     if ok and os.path.exists(vo) and gen_ok:
         res["ok"] = True
         res["discharged"] = len(thms)
@@ -176,6 +181,25 @@ def prove(prop, ctx):
         m = re.search(r'File "\./(\S+)", line (\d+)', log)
         res["first_error"] = (m.group(1) + ":" + m.group(2)) if m else ("translator: " + gen_msg if not gen_ok else "unknown")
     return res
+
+
+def coq_depends(prop, target):
+    """does coq/Properties_<prop>.v transitively Require coq/<target>.v (scan of the Require lines of our own files)?"""
+    seen, todo = set(), ["Properties_%s" % prop]
+    while todo:
+        f = todo.pop()
+        if f in seen:
+            continue
+        seen.add(f)
+        path = os.path.join(COQ, f + ".v")
+        if not os.path.exists(path):
+            continue
+        src = re.sub(r"\(\*.*?\*\)", " ", open(path).read(), flags=re.S)
+        for m in re.finditer(r"From\s+Cmr\s+Require\s+(?:Import\s+|Export\s+)?([^.]*)\.", src):
+            todo += m.group(1).split()
+        for m in re.finditer(r"Require\s+(?:Import\s+|Export\s+)?((?:Cmr\.\w+\s*)+)\.", src):
+            todo += [x.split(".")[-1] for x in m.group(1).split()]
+    return target in seen
 
 
 def assumptions(prop, thms):
